@@ -39,7 +39,8 @@ func send(w io.Writer, packet *parser.Packet) error {
 	return packet.Encode(w, true)
 }
 
-func nextPacket(r io.Reader) (*parser.Packet, error) {
+// limit is the maximum length of a packet. 0 means that there is no limit.
+func nextPacket(r io.Reader, limit int64) (*parser.Packet, error) {
 	var firstByte [1]byte
 	_, err := io.ReadFull(r, firstByte[:])
 	if err != nil {
@@ -88,6 +89,9 @@ func nextPacket(r io.Reader) (*parser.Packet, error) {
 			expectedLen = int(binary.BigEndian.Uint64(header[:]))
 			state = ReadPayload
 		case ReadPayload:
+			if expectedLen < 0 || (limit > 0 && int64(expectedLen) > limit) {
+				return nil, ErrLimitReached
+			}
 			return parser.DecodeWithLen(r, isBinary, expectedLen)
 		}
 	}
